@@ -237,12 +237,13 @@ def whole_rows(ctx: Ctx) -> None:
     # Index.sort / IndexHierarchy.sort: the permutation from sort_index_for_order feeds the extraction directly
     for cname, consumer in (('Index', 'self._extract_iloc'), ('IndexHierarchy', 'self._blocks._extract')):
         f = prog.method(cname, 'sort', inherited=False)
-        orders = [a for a in walk_local(f.node) if isinstance(a, ast.Assign) and isinstance(a.targets[0], ast.Name)
-                  and isinstance(a.value, ast.Call) and call_name(a.value) == 'sort_index_for_order']
-        onames = {a.targets[0].id for a in orders}
+        # the permutation may be named (order = sort_index_for_order(self, ...)) or written in place as the consumer's argument
+        ocalls = [c for c in walk_local(f.node) if isinstance(c, ast.Call) and call_name(c) == 'sort_index_for_order']
+        onames = {a.targets[0].id for a in walk_local(f.node) if isinstance(a, ast.Assign) and isinstance(a.targets[0], ast.Name) and any(a.value is c for c in ocalls)}
         used = [c for c in walk_local(f.node) if isinstance(c, ast.Call) and call_name(c) == consumer
-                and any(isinstance(a, ast.Name) and a.id in onames for a in list(c.args) + [k.value for k in c.keywords])]
-        arg0_self = bool(orders) and orders[0].value.args and norm(orders[0].value.args[0]) == 'self'
+                and any((isinstance(a, ast.Name) and a.id in onames) or any(a is oc for oc in ocalls) for a in list(c.args) + [k.value for k in c.keywords])]
+        arg0_self = bool(ocalls) and ocalls[0].args and norm(ocalls[0].args[0]) == 'self'
+        orders = ocalls
         good = bool(orders) and bool(used) and arg0_self
         (ctx.ok if good else ctx.bad)(R, f, f.node, f'order = sort_index_for_order(self, ...) feeds {consumer}' if good else
                                       f'{cname}.sort does not extract with the permutation computed from its own labels', key=f'{cname}.sort')
